@@ -89,3 +89,17 @@ Proof. exact w_resize_eq. Qed.
 Check C10_source_terminal_resize : forall t c r, ZW t -> 1 <= c -> 1 <= r -> w_resize Om (zabs t) (wabs t) (Z.of_nat c) (Z.of_nat r) = wres_flag (term_resize t c r) (negb ((c =? cols t) && (r =? rows t))).
 Print Assumptions C10_source_terminal_resize.
 
+From Avt Require Import Proofs.C10Char.
+(** Proofs/C10Char.v (second statement audit) *)
+(** "... when it was on a character of the text - on that same character": the CELL under the cursor survives (same logical line, same offset, equal cell, inside the raw line; inside the trimmed line when it is not a default blank). Side hypothesis = the one reachable exception: a wrap-pending cursor on an already soft-wrapped row when only the height shrinks (then `curs` points at the first cell of the dropped row: C10_same_character_refuted_pending in Proofs/C10Char.v) *)
+Theorem C10_same_character : forall b nc nr cc cr b' cc' cr', BInv b -> 1 <= nc -> 1 <= nr -> cr < brows b -> (nc = bcols b -> nr < brows b -> cc < bcols b) -> buf_resize b nc nr cc cr = Ok (b', (cc', cr')) -> let '(k, o) := curs b cc cr in let '(k', o') := curs b' cc' cr' in let old_k := nth k (logical_t (lines b)) [] in let new_k := nth k' (logical_t (lines b')) [] in let new_raw := nth k' (logical (lines b')) [] in o < length old_k -> k' = k /\ o' = o /\ nth o new_k default_cell = nth o old_k default_cell /\ o < length new_raw /\ nth o new_raw default_cell = nth o old_k default_cell /\ (cell_is_default (nth o old_k default_cell) = false -> o < length new_k).
+Proof. exact C10_same_character_partial. Qed.
+Check C10_same_character : forall b nc nr cc cr b' cc' cr', BInv b -> 1 <= nc -> 1 <= nr -> cr < brows b -> (nc = bcols b -> nr < brows b -> cc < bcols b) -> buf_resize b nc nr cc cr = Ok (b', (cc', cr')) -> let '(k, o) := curs b cc cr in let '(k', o') := curs b' cc' cr' in let old_k := nth k (logical_t (lines b)) [] in let new_k := nth k' (logical_t (lines b')) [] in let new_raw := nth k' (logical (lines b')) [] in o < length old_k -> k' = k /\ o' = o /\ nth o new_k default_cell = nth o old_k default_cell /\ o < length new_raw /\ nth o new_raw default_cell = nth o old_k default_cell /\ (cell_is_default (nth o old_k default_cell) = false -> o < length new_k).
+Print Assumptions C10_same_character.
+
+(** at the level of a Resize call, for EVERY scrollback limit *)
+Theorem C10_same_character_every_limit : forall v c r v' o, Inv v -> 1 <= c -> 1 <= r -> stepM v (Resize c r) = Ok (v', o) -> active (vterm v) = Primary -> (c = cols (vterm v) -> r < rows (vterm v) -> cur_col (vterm v) < cols (vterm v)) -> let t := vterm v in let t' := vterm v' in let dr := o_drained o in (* (a) right after the reflow = with the drained rows put back on top *) same_character (buf t) (cur_col t) (cur_row t) (buf t' <| lines := dr ++ lines (buf t') |>) (cur_col t') (cur_row t') /\ (* (b) after the trim: [jd] whole logical lines were drained, [od] cells of a further one *) (let '(jd, od) := curs_go dr (length dr) 0 0 c in let k := fst (curs (buf t) (cur_col t) (cur_row t)) in (jd < k \/ (jd = k /\ od = 0)) -> same_character_from jd (buf t) (cur_col t) (cur_row t) (buf t') (cur_col t') (cur_row t')).
+Proof. exact C10_same_character_step_any_limit. Qed.
+Check C10_same_character_every_limit : forall v c r v' o, Inv v -> 1 <= c -> 1 <= r -> stepM v (Resize c r) = Ok (v', o) -> active (vterm v) = Primary -> (c = cols (vterm v) -> r < rows (vterm v) -> cur_col (vterm v) < cols (vterm v)) -> let t := vterm v in let t' := vterm v' in let dr := o_drained o in (* (a) right after the reflow = with the drained rows put back on top *) same_character (buf t) (cur_col t) (cur_row t) (buf t' <| lines := dr ++ lines (buf t') |>) (cur_col t') (cur_row t') /\ (* (b) after the trim: [jd] whole logical lines were drained, [od] cells of a further one *) (let '(jd, od) := curs_go dr (length dr) 0 0 c in let k := fst (curs (buf t) (cur_col t) (cur_row t)) in (jd < k \/ (jd = k /\ od = 0)) -> same_character_from jd (buf t) (cur_col t) (cur_row t) (buf t') (cur_col t') (cur_row t')).
+Print Assumptions C10_same_character_every_limit.
+
